@@ -423,7 +423,31 @@ def reused_reference_names() -> list:
     return out
 
 
+def shared_reference_histories() -> list:
+    """One producer serving several different statements that use the same named reference (a project's train and apply
+    statements over ``School.reference('bar')``): rare among the random histories (reuse x alchemy x reference twice)."""
+    from vf.dslx import readerlevel as R
+
+    ref = A.ref(A.table('B'), 'r1')
+    cond = A.cmp('eq', A.col('A', 'id'), A.elem('r1', 'a'))
+    select = [A.col('A', 'id'), A.alias(A.elem('r1', 'y'), 'ry')]
+    s0 = A.query(A.join(A.table('A'), ref, 'inner', cond), select)
+    s1 = A.query(A.join(A.table('A'), ref, 'inner', cond), select, where=A.cmp('gt', A.col('A', 'x'), A.lit(1)))
+    s2 = A.query(ref, [A.elem('r1', 'id'), A.elem('r1', 's')])
+    init = {feed: _EXTRA_DATA for feed in R.FEEDS}
+    out = []
+    for a, b in ((s0, s1), (s1, s0), (s2, s0)):
+        for feed in ('alc1', 'alc2'):
+            steps = [{'op': 'read', 'feed': feed, 'stmt': i} for i in (0, 1, 0, 1)]
+            out.append({'stmts': [a, b], 'init': init, 'steps': steps, 'reuse': True})
+    return out
+
+
 def enumerate_extra(ctx, shard, nshards):
+    if shard == 0:
+        ctx.campaign = 'reader'
+        for spec in shared_reference_histories():
+            check_reader(ctx, spec)
     for k, v in sorted(_EXCLUDED.items()):
         ctx.extra[f'clean_excluded:{k}'] = v
     if shard == 0:
